@@ -1,12 +1,158 @@
 import Driver.Util
-open Drv
+import Faithful.Lib.Request
+open Drv Req
 
+/-! model side of the C08 line protocol: one answer line per op line.
+
+    world I E:G,E:G|- JP                                      → ok
+    http METHOD RAWPATH BODY CHUNKED NORMPATH CL TREE          → response class (`data` = any data-layer answer)
+    raw WIRE                                                  → nopanic   (the model's claim for every request)
+    g GetVersion | GetBlock S | GetBlockTime S | GetTransaction SIG
+    g StreamBlocks START END CANCEL FILTER | g StreamTransactions START END CANCEL FILTER
+    g Get ITEMS TAIL SENDFAIL
+    bca ITEMS ACCOUNTS                                        → true | false
+-/
 namespace DrvC08
 
-/-- model side of the C08 line protocol: one answer line per op line -/
+def strOfHex (h : String) : String :=
+  let bytes := unhex h
+  match String.fromUTF8? (ByteArray.mk bytes.toArray) with
+  | some s => s
+  | none => String.ofList (bytes.map fun b => Char.ofNat b.toNat)
+
+/-- the precise classes a data-layer answer may take, printed as `data` on both sides -/
+def canon (r : String) : String :=
+  if r = "200:result" || r = "200:null" || r = "200:e-32009" || r = "200:e-32603" || r = "200:body" ||
+     r = "404:empty" || r = "500:empty" || r = "200:empty" then "data" else r
+
+def showOutcome : Outcome String → String
+  | .ok r => canon r
+  | .err e => "err " ++ e
+  | .panic _ => "panic"
+
+partial def parseTree : List String → Option (Json × List String)
+  | [] => none
+  | t :: rest =>
+    match t.toList with
+    | ['z'] => some (.null, rest)
+    | ['t'] => some (.bool true, rest)
+    | ['f'] => some (.bool false, rest)
+    | 'n' :: cs =>
+      match (String.ofList cs).splitOn ":" with
+      | [v, fl] =>
+        let flags := fl.toNat!
+        some (.num ⟨v.toNat!, flags % 2 = 1, (flags / 2) % 2 = 1⟩, rest)
+      | _ => none
+    | 's' :: cs => some (.str (strOfHex (String.ofList cs)), rest)
+    | 'A' :: cs =>
+      let n := (String.ofList cs).toNat!
+      let rec items (k : Nat) (rest : List String) (acc : List Json) : Option (List Json × List String) :=
+        if k = 0 then some (acc.reverse, rest) else
+        match parseTree rest with
+        | some (j, r) => items (k - 1) r (j :: acc)
+        | none => none
+      match items n rest [] with
+      | some (xs, r) => some (.arr xs, r)
+      | none => none
+    | 'O' :: cs =>
+      let n := (String.ofList cs).toNat!
+      let rec pairs (k : Nat) (rest : List String) (acc : List (String × Json)) : Option (List (String × Json) × List String) :=
+        if k = 0 then some (acc.reverse, rest) else
+        match rest with
+        | kt :: r1 =>
+          match kt.toList with
+          | 'k' :: kc =>
+            match parseTree r1 with
+            | some (j, r2) => pairs (k - 1) r2 ((strOfHex (String.ofList kc), j) :: acc)
+            | none => none
+          | _ => none
+        | [] => none
+      match pairs n rest [] with
+      | some (kvs, r) => some (.obj kvs, r)
+      | none => none
+    | _ => none
+
+def bodyOf (tree : String) : Body :=
+  if tree = "M" then .malformed else
+  match parseTree (tree.splitOn ",") with
+  | some (j, []) => .json j
+  | _ => .malformed
+
+def parseWorld (eps jp : String) : World :=
+  let es := if eps = "-" then [] else (eps.splitOn ",").map fun p =>
+    match p.splitOn ":" with
+    | [e, g] => (e.toNat!, g = "1")
+    | _ => (0, false)
+  ⟨es, jp = "1"⟩
+
+def csvHex (s : String) : List String :=
+  if s = "." then [] else (s.splitOn ",").map strOfHex
+
+def optNat (s : String) : Option Nat := if s = "-" then none else some s.toNat!
+def optB (s : String) : Option Bool := if s = "0" then some false else if s = "1" then some true else none
+
+def parseTxFilter (s : String) : Option TxFilter :=
+  if s = "-" then none else
+  let parts := s.splitOn ";"
+  let get (c : Char) : String :=
+    match parts.find? (fun p => p.toList.head? = some c) with
+    | some p => String.ofList (p.toList.drop 1)
+    | none => "."
+  some ⟨optB (get 'V'), optB (get 'F'), csvHex (get 'I'), csvHex (get 'E'), csvHex (get 'R')⟩
+
+def parseGetItems (s : String) : List GetItem :=
+  if s = "." then [] else (s.splitOn ";").map fun it =>
+    match it.toList with
+    | 'V' :: _ => .version
+    | 'B' :: cs => .block (String.ofList cs).toNat!
+    | 'T' :: cs => .blockTime (String.ofList cs).toNat!
+    | 'X' :: _ => .transaction
+    | _ => .nothing
+
+def parseBca (s : String) : List BcaTx :=
+  (s.splitOn ";").map fun it =>
+    match it.splitOn ":" with
+    | [_, mk, sh, lh] => ⟨true, sh = "1", mk ≠ "garbage", lh = "1"⟩
+    | _ => ⟨false, false, false, false⟩
+
+/-- the data layer is abstract; any instance will do for the outcome class -/
+def backend : Backend := ⟨fun _ => true, fun _ => 1, fun _ => true⟩
+
+def step (w : World) (l : String) : World × String :=
+  match words l with
+  | ["world", _, eps, jp] => (parseWorld eps jp, "ok")
+  | ["http", m, _, _, _, np, cl, tree] =>
+    if tree = "R" then (w, "http-reject") else
+    let r : HttpReq := ⟨m, strOfHex np, cl.toInt!, bodyOf tree⟩
+    (w, showOutcome (handle w backend (.http r)))
+  | ["raw", _] => (w, "nopanic")
+  | ["g", "GetVersion"] => (w, showOutcome (handle w backend .grpcGetVersion))
+  | ["g", "GetBlock", s] => (w, showOutcome (handle w backend (.grpcGetBlock s.toNat!)))
+  | ["g", "GetBlockTime", s] => (w, showOutcome (handle w backend (.grpcGetBlockTime s.toNat!)))
+  | ["g", "GetTransaction", _] => (w, showOutcome (handle w backend .grpcGetTransaction))
+  | ["g", "StreamBlocks", st, en, c, f] =>
+    let filter := if f = "-" then none else some (csvHex f)
+    (w, showOutcome (handle w backend (.grpcStreamBlocks ⟨st.toNat!, optNat en, filter, c = "1"⟩ [])))
+  | ["g", "StreamTransactions", st, en, c, f] =>
+    (w, showOutcome (handle w backend (.grpcStreamTransactions ⟨st.toNat!, optNat en, parseTxFilter f, c = "1"⟩ [])))
+  | ["g", "Get", items, tail, sf] =>
+    (w, match getLoop w (parseGetItems items) (tail = "err") (if sf = "-" then 0 else sf.toNat!) [] with
+        | .ok (sent, final) => (if sent.isEmpty then "." else String.intercalate "," sent) ++ ";" ++ final
+        | .err e => "err " ++ e
+        | .panic _ => "panic")
+  | ["bca", items, _] =>
+    (w, match blockContainsAccounts (parseBca items) with
+        | .ok b => if b then "true" else "false"
+        | .err e => "err " ++ e
+        | .panic _ => "panic")
+  | _ => (w, "bad-op")
+
 def run (lines : Array String) : IO Unit := do
   let out ← IO.getStdout
-  for _ in lines do
-    out.putStrLn "unimplemented"
+  let mut w : World := ⟨[], false⟩
+  for l in lines do
+    let (w', o) := step w l
+    w := w'
+    out.putStrLn o
 
 end DrvC08
